@@ -84,6 +84,17 @@ CHECKS = {
   note="Partial. Trusted: Coq kernel, vm_compute, recording wrappers, harness. Not modelled: statement readers, regex running time, wall time.",
   technique="Rocq proof (safety invariant of a stack machine for all token streams) + trace validation + mutation-based crash oracle",
   design="4/C03"),
+ "C04": dict(
+  text="Coq theorems (C04/Props.v): parser o printer = identity on scope records -- for every well-formed file (any number of units, any nesting of "
+       "procedures, types, interfaces and BLOCK/DO/IF/WHERE/ASSOCIATE/ENUM constructs, each closed by its own END word or an allowed bare END) the scope "
+       "machine creates exactly the expected objects (kind, name, line of the opening statement, line of END, enclosing object), leaves nothing open and "
+       "records no error; the same for any construct nested in any reachable state; workspace/symbol = stable name-sort of the substring filter "
+       "(permutation + sortedness). The machine is the trace-validated model of C03; here the scope objects the implementation builds for generated "
+       "programs are compared with the theorem's records, documentSymbol with the handler model, and both with the generator's ground truth.",
+  note="Trusted: Coq kernel, vm_compute, recording wrappers, generator. Fragment: no SELECT regions / labelled DO / GENERIC / MODULE PROCEDURE in the theorem "
+       "(trace validation only). END-word recognition on the generated regexes is a bounded check.",
+  technique="Rocq proof (structural induction on program trees over a stack machine; sort/filter specification) + differential on generated programs",
+  design="4/C04"),
 }
 NOT_YET = "not yet built in this round; see DESIGN.md section 8 (build order)"
 
